@@ -12,7 +12,7 @@ EXTENDS Syncer, Json, IOUtils, TLC
 CONSTANT Strict
 Rec == ndJsonDeserialize(IOEnv.TRACE)
 VARIABLE l
-tvars == <<stored, pruned, foreign, sampled, now, netHead, peers, trusted, phase, subj, ongoing, hsub, sawPeer, lastFetch, l>>
+tvars == <<stored, pruned, foreign, sampled, now, netHead, peers, trusted, phase, subj, ongoing, hsub, sawPeer, slowH, lastFetch, l>>
 Ev == Rec[l]
 
 Observed(st) ==
@@ -32,9 +32,9 @@ TStrict ==
     LET n == Ev.name IN
     \/ n = "reset"   /\ stored' = {} /\ pruned' = {} /\ foreign' = {} /\ sampled' = {} /\ now' = Ev.now /\ netHead' = 1
                      /\ peers' = 0 /\ trusted' = FALSE /\ phase' = "connecting" /\ subj' = 0 /\ ongoing' = <<>> /\ hsub' = FALSE
-                     /\ sawPeer' = FALSE /\ lastFetch' = NoFetch
+                     /\ sawPeer' = FALSE /\ lastFetch' = NoFetch /\ slowH' = 0
     \/ n = "prefill" /\ Adopt(Ev.st) /\ netHead' = Ev.netHead
-                     /\ UNCHANGED <<now, peers, trusted, phase, ongoing, hsub, sawPeer, lastFetch>>
+                     /\ UNCHANGED <<now, peers, trusted, phase, ongoing, hsub, sawPeer, lastFetch, slowH>>
     \/ n = "mark"    /\ MarkSampled(Ev.h) /\ Observed(Ev.st)
     \* a removal injected *inside* fetch_next_batch (race = 1) is logged together with the header-sub message that
     \* triggered the section: its own snapshot already shows that message's insert, so only the next event is observed
@@ -44,9 +44,9 @@ TStrict ==
     \/ n = "plainjoin" /\ PlainJoin /\ Observed(Ev.st)
     \/ n = "trustedleave" /\ TrustedLeave /\ Observed(Ev.st)
     \/ n = "newblock" /\ netHead' = Ev.netHead
-                      /\ UNCHANGED <<stored, pruned, foreign, sampled, now, peers, trusted, phase, subj, ongoing, hsub, sawPeer, lastFetch>>
+                      /\ UNCHANGED <<stored, pruned, foreign, sampled, now, peers, trusted, phase, subj, ongoing, hsub, sawPeer, lastFetch, slowH>>
     \/ n = "tick"     /\ now' = Ev.now      \* real time passed (aging runs)
-                      /\ UNCHANGED <<stored, pruned, foreign, sampled, netHead, peers, trusted, phase, subj, ongoing, hsub, sawPeer, lastFetch>>
+                      /\ UNCHANGED <<stored, pruned, foreign, sampled, netHead, peers, trusted, phase, subj, ongoing, hsub, sawPeer, lastFetch, slowH>>
     \/ n = "headsub" /\ Ev.h = netHead /\ HeaderSub /\ Observed(Ev.st)
     \/ n = "tryinit" /\ Ev.h = netHead /\ TryInit /\ Observed(Ev.st)
     \/ n = "fetch"   /\ FetchNext /\ ongoing' = <<Ev.lo, Ev.hi>> /\ Observed(Ev.st)
@@ -56,18 +56,18 @@ TStrict ==
                         \/ Ev.kind = "fail" /\ BatchFail
                      /\ Observed(Ev.st)
     \/ n = "quiescent" /\ (Ev.check_live = 1 => (phase = "connected" /\ WindowStored))
-                       /\ UNCHANGED <<stored, pruned, foreign, sampled, now, netHead, peers, trusted, phase, subj, ongoing, hsub, sawPeer, lastFetch>>
+                       /\ UNCHANGED <<stored, pruned, foreign, sampled, now, netHead, peers, trusted, phase, subj, ongoing, hsub, sawPeer, lastFetch, slowH>>
 
 TLoose ==
     LET n == Ev.name IN
-    /\ UNCHANGED <<peers, trusted, phase, ongoing, hsub, sawPeer>>
+    /\ UNCHANGED <<peers, trusted, phase, ongoing, hsub, sawPeer, slowH>>
     /\ \/ n = "reset"   /\ stored' = {} /\ pruned' = {} /\ foreign' = {} /\ sampled' = {} /\ now' = Ev.now /\ netHead' = 1
                         /\ subj' = 0 /\ lastFetch' = NoFetch
-       \/ n = "prefill" /\ Adopt(Ev.st) /\ netHead' = Ev.netHead /\ UNCHANGED <<now, lastFetch>>
+       \/ n = "prefill" /\ Adopt(Ev.st) /\ netHead' = Ev.netHead /\ UNCHANGED <<now, lastFetch, slowH>>
        \/ n \in {"mark", "prune", "connect", "disconnect", "plainjoin", "trustedleave", "headsub", "tryinit", "batch"}
-                        /\ Adopt(Ev.st) /\ UNCHANGED <<now, netHead, lastFetch>>
-       \/ n = "newblock" /\ netHead' = Ev.netHead /\ UNCHANGED <<stored, pruned, foreign, sampled, now, subj, lastFetch>>
-       \/ n = "tick"     /\ now' = Ev.now /\ UNCHANGED <<stored, pruned, foreign, sampled, netHead, subj, lastFetch>>
+                        /\ Adopt(Ev.st) /\ UNCHANGED <<now, netHead, lastFetch, slowH>>
+       \/ n = "newblock" /\ netHead' = Ev.netHead /\ UNCHANGED <<stored, pruned, foreign, sampled, now, subj, lastFetch, slowH>>
+       \/ n = "tick"     /\ now' = Ev.now /\ UNCHANGED <<stored, pruned, foreign, sampled, netHead, subj, lastFetch, slowH>>
        \/ n = "fetch"   /\ Adopt(Ev.st) /\ UNCHANGED <<now, netHead>>
                         \* facts at request time, from the state the request was made in (= observed state)
                         /\ lastFetch' = [lo |-> Ev.lo, hi |-> Ev.hi, subj |-> Ev.st.subj,
@@ -75,7 +75,7 @@ TLoose ==
                                          old |-> {h \in SetOfRanges(Ev.st.stored) \cup SetOfRanges(Ev.st.pruned) :
                                                     h > Ev.hi /\ ~InWin(h, WSamp)}]
        \/ n = "quiescent" /\ (Ev.check_live = 1 => WindowStored)
-                          /\ UNCHANGED <<stored, pruned, foreign, sampled, now, netHead, subj, lastFetch>>
+                          /\ UNCHANGED <<stored, pruned, foreign, sampled, now, netHead, subj, lastFetch, slowH>>
 
 TStep == /\ l <= Len(Rec) /\ l' = l + 1
          /\ IF Strict THEN TStrict ELSE TLoose
